@@ -169,13 +169,21 @@ def thorough_extras(pid, mod, rep, repo, ctx):
             shutil.rmtree(w, ignore_errors=True)
 
     seeds = sorted(glob.glob(os.path.join(V, "seeded", pid + "-m*")))
-    st = {"seeded_changes": [], "variants": []}
+    st = {"seeded_changes": [], "variants": [], "skipped_for_time": []}
+    budget = float(os.environ.get("VERIF_SELFTEST_BUDGET", "1500"))
+    t_start = time.time()
     for sd in seeds:
+        if time.time() - t_start > budget:
+            st["skipped_for_time"].append(os.path.basename(sd))
+            continue
         res = run_on_patch(os.path.join(sd, "patch.diff"))
         st["seeded_changes"].append({"seed": os.path.basename(sd), "applies": res is not None,
                                      "reported": bool(res) if res not in (None, "does-not-compile") else None,
                                      "new_violation_keys": res[:4] if isinstance(res, list) else res})
     for vf in sorted(glob.glob(os.path.join(V, "variants", "v*.diff"))):
+        if time.time() - t_start > budget:
+            st["skipped_for_time"].append(os.path.basename(vf))
+            continue
         res = run_on_patch(vf)
         st["variants"].append({"variant": os.path.basename(vf), "applies": res is not None,
                                "silent": (res == []) if isinstance(res, list) else None,
